@@ -233,7 +233,20 @@ def judge(desc, w, res_, res, keys, nontrivial):
     res["fps"].add(fp(repr(got)))
     if len(res["samples"]) < 2:
         res["samples"].append({"circuit": desc, "w": str(w), "resolution": str(res_), "network": got})
-    compare_networks(res, case, got, exp, desc)
+    if not compare_networks(res, case, got, exp, desc):
+        return
+    # the same description with its numbers given as NumPy scalars / as Python ints (where integral), and the frequency
+    # given as a NumPy scalar: the same network
+    import numpy as np
+    for numbers, wv in (("numpy", np.float64(float(w))), ("int", int(w) if w.denominator == 1 else float(w))):
+        bump(res["hits"], "number_types")
+        try:
+            got2 = adapt.to_netlist(transform_circuit(adapt.circuit(desc, numbers=numbers), wv, float(res_)))
+        except Exception as e:
+            add_violation(res, "one_branch_per_component", dict(case, numbers=numbers), "a network", "%s: %s" % (type(e).__name__, e), "transformation raised for %s-typed values" % numbers, kind="exception:" + type(e).__name__)
+            return
+        if not compare_networks(res, dict(case, numbers=numbers), got2, exp, desc):
+            return
 
 
 def judge_list(desc, ws, res_, res):
